@@ -43,8 +43,12 @@ func main() {
 		res.SetExtra("phase_seconds", map[string]float64{"hash_correspondence": t1.Sub(t0).Seconds(), "fixtures": time.Since(t1).Seconds()})
 	}
 
-	// phase 2: independent chains in parallel
+	// phase 2: a directed history first (its report is the most detailed one), then independent
+	// chains in parallel
 	tTamper := time.Now()
+	for _, dstNew := range []bool{false, true} {
+		runOldRootDirected(f, res, dstNew)
+	}
 	nChains := f.Scale(4, 12)
 	var tasks []chainTask
 	for c := 0; c < nChains; c++ {
